@@ -8,7 +8,7 @@ from ..machine import Machine, cache_op, control_op, structural_op, viol
 
 class C06(Machine):
     ID = "C06"
-    FAMILY_WEIGHTS = {"sparse": 3, "dense": 1, "canal": 4, "modular": 4, "maa": 1, "cascade": 4, "degenerate": 1}
+    FAMILY_WEIGHTS = {"sparse": 3, "dense": 1, "canal": 4, "modular": 4, "maa": 1, "cascade": 4, "degenerate": 1, "inputs_mix": 2}
     NMAX = {"quick": 6, "thorough": 7}
 
     def gen_params(self, sc, rng):
